@@ -483,11 +483,11 @@ def si_configs(tier):
 def subchecks(tier, seed):
     stft = stft_configs(tier)
     si = si_configs(tier)
-    ncomp = 10 if tier == "quick" else 14
+    ncomp = 9 if tier == "quick" else 12
     comp_cfgs = [dict(c, Ncomp=ncomp) for c in stft
                  if c["bank"] == "tri" and c.get("dtype") is None and c["L"] in (3, 4, 5)
                  and c["window"] == "hamming" and c["pad"] and c["S"] in (1, 2, c["L"])]
-    comp_cfgs += [dict(c, Ncomp=ncomp + 4) for c in si
+    comp_cfgs += [dict(c, Ncomp=ncomp + 2) for c in si
                   if c["bank"] in ("gabor", "gammatone") and c["S"] in (2, 3) and c["pad"]
                   and c["window"] == "hamming"]
     fbf_cfgs = [dict(c, fbf_nmax=24 if tier == "quick" else 40) for c in stft
